@@ -348,6 +348,7 @@ def finiteness_case(rec, seedt, fixed=None):
         v, cf = np.asarray(v), np.asarray(res.cf)
         if np.any(~np.isfinite(v[cf > 0])):
             rec.violation("non-finite-estimate", f"cf_db non-finite where cf > 0 ({kind})")
+    coh = np.array(coh, copy=True) if cross else None   # value as first read
     for nm in ERROR_BARS:
         v = getattr(res, nm)
         if v is None:
@@ -359,6 +360,14 @@ def finiteness_case(rec, seedt, fixed=None):
             rec.violation("non-finite-error-bar",
                           f"{nm}[{j}]={v[j]!r} although coherence={coh[j] if cross else 1.0!r} > 0 "
                           f"({kind}, N={N}, order {kw['order']})")
+    # the estimates must still be finite after the error bars have been read
+    for nm in DENSITY_LIKE:
+        v = getattr(res, nm)
+        if v is not None and not np.all(np.isfinite(np.asarray(v))):
+            rec.violation("non-finite-estimate-after-error-bars",
+                          f"{nm} became non-finite after the error-bar attributes were read "
+                          f"({kind} record, N={N}, cross={cross}, order {kw['order']})")
+            break
 
 
 def writeguard_case(rec, seedt):
@@ -414,6 +423,10 @@ def writeguard_case(rec, seedt):
         rec.blocked(f"analysis rejected: {str(e)[:60]}")
     except Exception as e:
         rec.violation(f"raises:{type(e).__name__}", f"{steps[-3:]}: {type(e).__name__}: {e}")
+
+
+def _rescan_marker():
+    pass
 
 
 def helper_case(rec, seedt):
